@@ -32,3 +32,5 @@ mod c39;
 mod c40;
 #[cfg(any(not(verif_select), verif_gf))]
 mod c21;
+#[cfg(any(not(verif_select), verif_gm))]
+mod c05;
